@@ -437,6 +437,14 @@ pub fn extend_outcome(args: &Args, mut o: Outcome) -> Outcome {
             o.violations.push((f, json!({"engine": "E2-copy-x-delta", "scope": "versions and watermarks 0..6"})));
         }
     }
+    if prop == "C04" {
+        // the external catch-up entry point moves frontiers too
+        let (v, c) = crate::catchup::run_for(args, "C04", &deadline);
+        o.evidence.evaluations += c.get("calls");
+        o.evidence.counters.add("catchup_calls", c.get("calls"));
+        o.evidence.counters.add("catchup_calls_applied", c.get("calls_applied"));
+        o.violations.extend(v);
+    }
     if prop == "C20" {
         let (q, _, _) = run_c14_scope(args, &deadline);
         o.evidence.evaluations += q.c.get("deliveries");
